@@ -55,14 +55,17 @@ def run(ctx):
         lets = [l for l in LETS if rng.random() < 0.7]
         pre = [dict(kind="run", input=x) for x in defs + lets]
         if rng.random() < 0.3:
-            pre.append(dict(kind="run", input=rng.choice(SC.OK_EVALS[:10])))
+            # (a toplevel `for` as the last expression is left pending by eval_toplevel_exprs_then_stop's
+            # stop-at special case, so it would not be a clean prefix for the fresh session)
+            pre.append(dict(kind="run", input=rng.choice([e for e in SC.OK_EVALS[:10] if not e.startswith("for ")])))
         stops, locs, tl, ints = [], [], [], []
         if rng.random() < 0.25:
             s = rng.choice(INTERRUPTED)
             ints = [rng.randrange(150, 600)]
             stops.append(s)
         for _ in range(rng.randrange(0 if stops else 1, 3)):
-            stops.append(rng.choice(STOPPERS))
+            # a stopper that performs toplevel lets must run at the toplevel, i.e. first
+            stops.append(rng.choice([s for s in STOPPERS if not stops or not s[2]]))
         mids = []
         for (src, ls, tls) in stops:
             mids.append(dict(kind="run", input=src))
@@ -71,10 +74,13 @@ def run(ctx):
             if rng.random() < 0.3:
                 mids.append(dict(kind="run", input=rng.choice([":locals", ":stack", ":resume", ":fvalues", "1 + 1"])))
         locs = sorted(set(locs) - {"tv1", "tv2", "tv3", "i0", "j0", "c2"})
-        probes = [dict(kind="run", input=x) for x in locs]
-        probes += [dict(kind="run", input=x) for x in [":resume", ":skip", ":stack", ":locals", ":fvalues", ":fstmts",
-                                                       "tv1", "f(0)", ":resume", "1 + 1"]]
-        rng.shuffle(probes)
+        # first the probes that leave nothing pending themselves (a failing probe such as an unbound
+        # local leaves ITS entry pending at the toplevel, in the fresh session as well)
+        first = [":resume", ":skip", ":stack", ":locals", ":fvalues", ":fstmts"]
+        rng.shuffle(first)
+        second = locs + ["tv1", "f(0)", "1 + 1", ":locals", ":stack"]
+        rng.shuffle(second)
+        probes = [dict(kind="run", input=x) for x in first + second]
         a = pre + mids + [dict(kind="run", input=":abort")] + probes
         b = pre + [dict(kind="run", input=x) for x in tl] + probes
         cases.append(dict(a=a, b=b, ints=ints, n_pre=len(pre) + len(mids) + 1, n_pre_b=len(pre) + len(tl),
@@ -95,6 +101,9 @@ def run(ctx):
         rj = [SC.req_json(r) for r in c["a"]]
         respa = SC.split_responses(xa["objs"])
         respb = SC.split_responses(xb["objs"])
+        if xa["timeout"] or xb["timeout"]:
+            ctx.cov["timeouts_skipped"] = ctx.cov.get("timeouts_skipped", 0) + 1
+            continue
         if xa["panic"] or len(respa) != len(c["a"]) or xb["panic"] or len(respb) != len(c["b"]):
             ctx.fail("C10/session-dies", "a session of the abort experiment died: %s / %s" % (xa["panic"], xb["panic"]),
                      requests=rj, interrupts=c["ints"], fresh=[SC.req_json(r) for r in c["b"]])
@@ -115,6 +124,14 @@ def run(ctx):
                     probes[i]["input"], x, y), requests=rj, interrupts=c["ints"], fresh=[SC.req_json(r) for r in c["b"]])
                 break
             inp = probes[i]["input"]
+            if inp in (":fvalues", ":fstmts"):
+                # pending values / entries of the frame, verbatim (the canonical line only says `info`)
+                ma = respa[c["n_pre"] + i][0]["kind"].get("run_command", {}).get("message")
+                mb = respb[c["n_pre_b"] + i][0]["kind"].get("run_command", {}).get("message")
+                if ma != mb:
+                    ctx.fail("C10/leftover-visible", "%s after :abort prints %r, in the fresh session %r" % (inp, ma, mb),
+                             requests=rj, interrupts=c["ints"], fresh=[SC.req_json(r) for r in c["b"]])
+                    break
             want = None
             if inp in c["locs"]:
                 want = "err=no-such-variable_" + inp
